@@ -47,7 +47,10 @@ BaseSchemas == {
   <<Rule("root", Ty(<<ArrT(<< <<Ent(0, -1, NoKey, Ty(<<Ref("root")>>))>> >>), Ref("int")>>))>>,
   <<Rule("root", Ty(<<ArrT(<< <<Ent(1, 1, NoKey, IntT)>>, <<Ent(1, 1, NoKey, TstrT), Ent(0, 1, NoKey, TstrT)>> >>)>>)), Rule("u1", IntT)>>,
   <<Rule("root", Ty(<<MapT(<< <<Ent(1, 1, Bare("a", A), Ty(<<Ref("t1")>>)), Ent(0, 1, Bare("b", B), Ty(<<Ref("t2")>>))>> >>)>>)),
-    Rule("t1", IntT), Rule("t2", Ty(<<Ref("tstr"), Ref("t1")>>)), Rule("u1", TstrT)>>
+    Rule("t1", IntT), Rule("t2", Ty(<<Ref("tstr"), Ref("t1")>>)), Rule("u1", TstrT)>>,
+  \* unwrap through an alias: the array group is spliced into the enclosing array
+  <<Rule("root", Ty(<<ArrT(<< <<Ent(1, 1, NoKey, Ty(<<[k |-> "unwrap", n |-> "u1", args |-> <<>>]>>)), Ent(0, -1, NoKey, TstrT)>> >>)>>)),
+    Rule("u1", Ty(<<Ref("u2")>>)), Rule("u2", Ty(<<ArrT(<< <<Ent(1, 1, NoKey, IntT), Ent(0, 1, NoKey, IntT)>> >>)>>))>>
 }
 DocSeq == <<Mp(<<P(Tx(A), I(1))>>), Mp(<<P(Tx(B), Tx(A))>>), Mp(<<>>), Mp(<<P(Tx(A), I(1)), P(Tx(B), Tx(A))>>), Mp(<<P(Tx(B), Tx(A)), P(Tx(A), I(1))>>),
          I(1), I(255), I(256), I(350), Tx(A), Tx(B), Nul, Arr(<<>>), Arr(<<I(1)>>), Arr(<<Tx(A)>>), Arr(<<I(1), Tx(A)>>), Arr(<<I(1), I(2)>>),
